@@ -190,6 +190,13 @@ class Gen:
             self.emit('DRAIN 60')
             self.emit('OP 0 promote %d' % r.randint(1, self.n - 1))
             self.emit('ROUND %d' % r.randint(10, 16))
+            if self.n > 2:
+                # the other clients move to the new host without telling the old one: it learns of their
+                # departure only through renet's time-out (15 s of its own clock, which advances by at
+                # most 250 ms per frame): let that much time pass before anything is demanded
+                for _ in range(68):
+                    self.emit('SLEEP 260')
+                    self.emit('ROUND 1')
             for _ in range(4):
                 self.op()
                 self.emit('DRAIN 60')      # writes resumed on either side, one at a time
